@@ -89,7 +89,7 @@ def run_families(ctx, plan, corpus_dirs=()):
         for m in mism:
             mm = re.match(r"MISMATCH case=(\S+) step=(\d+) op=\[(.*?)\] model=\[(.*?)\] impl=\[(.*?)\]", m)
             if mm and mm.group(1) in cases:
-                if any(ws[0] == "rt" and ws[1] in ("slowresponse", "slowerror", "finish") for ws, _, _ in cases[mm.group(1)]["steps"]):
+                if any((ws[0] == "rt" and ws[1] in ("slowresponse", "slowerror", "finish")) or ws[0] == "dinvoke" for ws, _, _ in cases[mm.group(1)]["steps"]):
                     continue    # a corpus case with a body that arrives in pieces: monitors only (see NOMODEL)
                 result["disagreements"].append((fam, mm.group(1), int(mm.group(2)), cases[mm.group(1)], m))
     return result
